@@ -40,8 +40,8 @@ Module RP := RegistryProofs.
    RM.new_mitems); the life-cycle machine is instantiated with the same function, whatever it is — no
    lemma below looks inside it *)
 Definition c17_rule (n : nat) : nat := gc_reg_mitems_rule n.
-Notation finF := (finalise c17_rule true true true).
-Notation finT := (fin_top c17_rule true true true).
+Notation finF := (finalise c17_rule true true true nopro).
+Notation finT := (fin_top c17_rule true true true nopro).
 
 Local Notation gentry := RM.gentry.
 Local Notation gslot := (slot RM.gentry).
@@ -208,12 +208,12 @@ Proof.
     apply (Keep_trans s (set_reg (rem_reg p (reg s)) s)); [repeat split | apply Hf; exact N].
 Qed.
 
-Lemma keep_finalise r w dd f : forall s o, NS s -> Keep s (finalise c17_rule r w dd f s o).
+Lemma keep_finalise r w dd f : forall s o, NS s -> Keep s (finalise c17_rule r w dd nopro f s o).
 Proof.
   induction f as [|f IH]; intros s o N; cbn [finalise]; [repeat split|].
   change (spawns (add_log (LFin o) s) o) with (spawns s o). rewrite (N o). simpl fold_left.
   destruct (owned (add_log (LFin o) s) o) as [p|]; [|repeat split].
-  assert (K : Keep s (gc_rem c17_rule r (finalise c17_rule r w dd f) (add_log (LFin o) s) p)).
+  assert (K : Keep s (gc_rem c17_rule r (finalise c17_rule r w dd nopro f) (add_log (LFin o) s) p)).
   { apply (Keep_trans s (add_log (LFin o) s)); [repeat split|]. apply keep_gc_rem; [exact IH | exact N]. }
   exact K.
 Qed.
@@ -237,7 +237,7 @@ Proof.
   exact K.
 Qed.
 
-Lemma keep_fin_top s o : NS s -> Keep s (fin_top c17_rule true true true s o).
+Lemma keep_fin_top s o : NS s -> Keep s (fin_top c17_rule true true true nopro s o).
 Proof. intros N. unfold fin_top. apply keep_finalise. exact N. Qed.
 
 
@@ -1286,14 +1286,14 @@ Qed.
 Theorem glue_sweep_thm : forall hashf d, boxlike d -> forall A g s g',
   TabM hashf g -> RM.pending g = [] -> Rel d g s -> GInv A s ->
   RP.Gsweep hashf d true true g = Some g' ->
-  Tab hashf g' /\ Rel d g' (sweep c17_rule true (fin_top c17_rule true true true) (c_order g) (c_marks g) s) /\
+  Tab hashf g' /\ Rel d g' (sweep c17_rule true (fin_top c17_rule true true true nopro) (c_order g) (c_marks g) s) /\
   RM.pending g' = [] /\ Mono g g'.
 Proof. intros hashf d [B N]. exact (glue_sweep hashf d B N). Qed.
 
 Theorem glue_rem_thm : forall hashf d, boxlike d -> forall f A g s p g',
   Tab hashf g -> Rel d g s -> GInv A s ->
   RP.Grem hashf d true f g p = Some g' ->
-  Tab hashf g' /\ Rel d g' (gc_rem c17_rule true (fin_top c17_rule true true true) s (idn p)) /\ Mono g g'.
+  Tab hashf g' /\ Rel d g' (gc_rem c17_rule true (fin_top c17_rule true true true nopro) s (idn p)) /\ Mono g g'.
 Proof. intros hashf d [B N]. exact (glue_rem hashf d B N). Qed.
 
 Theorem glue_history_thm : forall hashf d, boxlike d -> RP.dtors_ok d -> forall ops,
